@@ -420,6 +420,12 @@ class Exec:
             return bool(v)
         if isinstance(v, AList):
             return v.length > 0
+        if isinstance(v, ADict):
+            k = z3.FreshConst(v.key_sort, "k")
+            return z3.Exists([k], z3.Select(v.present, k))
+        if isinstance(v, ASet):
+            k = z3.FreshConst(v.key_sort, "k")
+            return z3.Exists([k], z3.Select(v.member, k))
         if isinstance(v, SObj):
             for c in v._cls_set:
                 if source.find_method(c, "__bool__") or source.find_method(c, "__len__"):
@@ -861,6 +867,18 @@ class Exec:
         idx = self.eval(node.slice, env)
         return self.getitem(base, idx)
 
+    @staticmethod
+    def _same_key(k, idx):
+        return k is idx or (is_z3(k) and is_z3(idx) and k.eq(idx)) or (
+            not is_z3(k) and not is_z3(idx) and not isinstance(k, SObj) and not isinstance(idx, SObj) and k == idx)
+
+    def omap_memo(self, base, idx):
+        """A second lookup of the same key term (no store in between) yields the same object."""
+        for k, r in reversed(base.lookups):
+            if r is not None and self._same_key(k, idx):
+                return r
+        return None
+
     def _snapshot_entry(self, obj, attr, v):
         """A lazily created field is an INPUT value: remember containers as they were at entry, because the
         code under verification mutates them in place (a.old.<obj>.<field> must not see those updates)."""
@@ -886,8 +904,10 @@ class Exec:
                 base.tests.append((idx, has))
             if not self.branch(has, label="key-present"):
                 raise PyRaise("KeyError")
-            r = self.mk(base.val_type, fresh_name(base.name + "[]"), register=True)
-            base.lookups.append((idx, r))
+            r = self.omap_memo(base, idx)
+            if r is None:
+                r = self.mk(base.val_type, fresh_name(base.name + "[]"), register=True)
+                base.lookups.append((idx, r))
             return r
         if isinstance(base, (list, tuple, str)):
             if is_z3(idx):
@@ -1017,6 +1037,8 @@ class Exec:
             # store into a dict of objects: recorded for specifications; later lookups stay unconstrained
             # (over-approximation already stated for TObjMap)
             base.__dict__.setdefault("stores", []).append((idx, value))
+            base.lookups = [(k, r) for (k, r) in base.lookups if False]  # a store invalidates what earlier lookups said
+            base.tests = []
         elif isinstance(base, ADict):
             k = lift(idx)
             base.present = z3.Store(base.present, k, z3.BoolVal(True))
